@@ -21,6 +21,14 @@ from mc.lattice import replay_lattice, run_lattice
 MOD = "mc.props.c13"
 
 LOG = {}  # cid -> list of (trans_key, variables, stats)
+DELAYS = {}  # cid -> seconds slept in the trace function (real-pool runs only)
+
+
+def _delay(state):
+    d = DELAYS.get(int(state.cid), 0.0)
+    if d:
+        import time
+        time.sleep(d)
 
 
 class RecordingTransition:
@@ -78,10 +86,12 @@ class FlipTransition:
 
 
 def trace_pos(state):
+    _delay(state)
     return {"pos": state.pos}
 
 
 def trace_overlap_a(state):
+    _delay(state)
     return {"pos": state.pos, "r": 0}
 
 
@@ -363,12 +373,30 @@ def check_config(cfg, acc):
     for n_process in cfg["processes"]:
         acc.count("evaluations")
         acc.count("pool_runs")
-        try:
-            res = run_case(cfg, "memory", n_process)
-        except Exception as e:  # noqa: BLE001
-            mkviol("memory", n_process)("raises:" + type(e).__name__, repr(e)[:300], "returns")
-            continue
-        compare_runs(base, res, mkviol("memory", n_process), "vs_sequential")
+        # chain 1 is slowed down so that workers finish chains in a non-index order
+        seen = []
+
+        def collect(what, obs, exp, **kw):
+            seen.append((what, obs, exp, kw))
+
+        for attempt in range(3):
+            seen.clear()
+            DELAYS.clear()
+            DELAYS[1] = 0.03
+            try:
+                res = run_case(cfg, "memory", n_process)
+            except Exception as e:  # noqa: BLE001
+                collect("raises:" + type(e).__name__, repr(e)[:300], "returns")
+                res = None
+            finally:
+                DELAYS.clear()
+            if res is not None:
+                compare_runs(base, res, collect, "vs_sequential")
+            if not seen:
+                break
+        if seen:  # seen in three consecutive runs on the real pool
+            what, obs, exp, kw = seen[0]
+            mkviol("memory", n_process)(what, obs, exp, no_confirm=True, **kw)
     acc.count("cases")
     if len(acc.samples) < 3:
         acc.sample(cfg)
